@@ -1204,6 +1204,14 @@ func (x *Exec) freshOf(prefix string, t types.Type) *Term {
 	return x.c.Fresh(prefix, x.ti.sortOf(t))
 }
 
+// addrWF: representation invariant of netip.Addr (zero value all-zero; IPv4 stored as ::ffff:a.b.c.d).
+func (x *Exec) addrWF(a *Term) *Term {
+	c := x.c
+	return c.And(
+		c.Implies(c.Eq(c.addrZ(a), c.BV(z0, 8)), c.And(c.Eq(c.addrHi(a), c.BV(0, 64)), c.Eq(c.addrLo(a), c.BV(0, 64)))),
+		c.Implies(c.addrIs4(a), c.And(c.Eq(c.addrHi(a), c.BV(0, 64)), c.Eq(c.BVBin("bvlshr", c.addrLo(a), c.BV(32, 64)), c.BV(0xffff, 64)))))
+}
+
 // assumeWF: type invariants of a symbolic value (slice header sanity, reference allocatedness).
 func (x *Exec) assumeWF(g *Term, v *Term, t types.Type, st *State) {
 	c := x.c
@@ -1217,6 +1225,17 @@ func (x *Exec) assumeWF(g *Term, v *Term, t types.Type, st *State) {
 		x.assume(g, c.IntCmp("<", c.RRoot(v), st.alloc))
 	case SStr:
 		x.assume(g, c.BVCmp("bvule", c.StrLen(v), c.BV(1<<56, 64)))
+	case "Addr":
+		x.assume(g, x.addrWF(v))
+	case "AddrPort":
+		x.assume(g, x.addrWF(c.Sel("ap_addr", "Addr", v)))
+	case "Prefix":
+		// representation invariant of netip.Prefix: invalid, or bits within the address length and no zone
+		a := c.Sel("pfx_addr", "Addr", v)
+		b1 := c.Sel("pfx_bits1", SBV(8), v)
+		bl := c.Ite(c.Eq(c.addrZ(a), c.BV(z0, 8)), c.BV(0, 8), c.Ite(c.addrIs4(a), c.BV(32, 8), c.BV(128, 8)))
+		x.assume(g, c.And(x.addrWF(a), c.BVCmp("bvule", c.addrZ(a), c.BV(z6, 8)), c.BVCmp("bvule", b1, c.BVBin("bvadd", bl, c.BV(1, 8))),
+			c.Implies(c.Eq(c.addrZ(a), c.BV(z0, 8)), c.Eq(b1, c.BV(0, 8)))))
 	}
 	if v.op == "tuple" {
 		if tup, ok := t.(*types.Tuple); ok {
